@@ -242,7 +242,8 @@ def history_tier(ck, violation, label, crys, chem, sl, jn, cut, ops, max_states,
 
 def run(ck):
     ck.rule = ("crystal pool (named + random crystal systems, 2-D/3-D, 1-3 atoms of the mobile species, polar and non-polar "
-               "sites) x percolating cutoff x N in {1,2,3} with origin states x random rates per class (uniform in [0.5,2]); "
+               "sites) x percolating cutoff x N in {1,2,3} with origin states x jump-network form (Cartesian; also lattice form when the "
+               "cell has several sites on a non-cubic lattice) x random rates per class (uniform in [0.5,2]); "
                "distinct = distinct (crystal, cutoff, N); non-trivial = at least 3 vector stars; history tier: the same StarSet/"
                "VectorStarSet objects regenerated over growing and shrinking ranges (fixed and random sequences) and "
                "VacancyMediated(...,1).generate(2).generate(1), each regenerated object compared with a fresh one")
@@ -260,7 +261,7 @@ def run(ck):
     ck.note("crystalStars.zeroclean replaced by its vectorised equivalent; equivalence re-checked bitwise on the small cases")
     zc = {"orig": orig_zeroclean, "fast": _fastclean, "checked": 0}
     rng = ck.rng
-    ncrys = ck.n(14, 130)
+    ncrys = ck.n(10, 130)
     max_states = ck.n(200, 520)
     certs, certmeta, certseen = [], [], set()
     skipped = {"nonpercolating": 0, "construct-failed": 0, "geometry": 0, "too-large": 0}
@@ -277,7 +278,7 @@ def run(ck):
         return float(e)
 
     # fixed corpus first (polar sites, two-fold pair stabilisers, 2-D polar), then the random pool
-    corpus = [(nm,) + gen.named(nm) for nm in ("polar", "hcp-oct-tet", "rect-polar2d")]
+    corpus = [(nm,) + gen.named(nm) for nm in ("polar", "hcp-oct-tet", "rect-polar2d", "honeycomb", "hcp")]
     for label, crys, chem in itertools.chain(corpus, gen.pool(rng, ncrys, random_frac=0.55)):
         try:
             net = gen.percolating_network(crys, chem, rng, maxjumps=ck.n(30, 60))
@@ -299,10 +300,16 @@ def run(ck):
         if nhist < ck.n(8, 40):
             nhist += 1
             history_tier(ck, violation, label, crys, chem, sl, jn, cut, ops, max_states, ck.n(160, 330), hstats)
-        for N in (1, 2, 3):
-            info = dict(info0, N=N)
+        # lattice-form jump networks (crys.jumpnetwork2lattice) as well, where the two forms can differ at all:
+        # several sites of the diffusing species per cell on a lattice that is not the unit cube
+        forms = [False] + ([True] if nsites >= 2 and not np.allclose(crys.lattice, np.eye(dim)) else [])
+        for N, latform in itertools.product((1, 2, 3), forms):
+            info = dict(info0, N=N, lattice_form=latform)
             try:
-                S = crystalStars.StarSet(jn, crys, chem, N, originstates=True)
+                if latform:
+                    S = crystalStars.StarSet(crys.jumpnetwork2lattice(chem, jn), crys, chem, N, originstates=True, lattice=True)
+                else:
+                    S = crystalStars.StarSet(jn, crys, chem, N, originstates=True)
                 if S.Nstates > max_states:
                     skipped["too-large"] += 1; continue
                 V = crystalStars.VectorStarSet(S)
@@ -385,8 +392,9 @@ def run(ck):
                 violation("exception", "expansion raised %s: %s" % (type(e2).__name__, e2), info); bad = []
             for key, msg in bad:
                 violation(key + sfx, msg, info)
-            ck.case(key=(label, repr(crys), round(cut, 5), N), nontrivial=V.Nvstars >= 3,
-                    kind="%dD-N%d-%s" % (dim, N, "polar" if any(sc.iszero(sts[p[0]]) for p in V.vecpos) else "nonpolar"),
+            ck.case(key=(label, repr(crys), round(cut, 5), N, latform), nontrivial=V.Nvstars >= 3,
+                    kind="%dD-N%d-%s%s" % (dim, N, "polar" if any(sc.iszero(sts[p[0]]) for p in V.vecpos) else "nonpolar",
+                                           "-latticeform" if latform else ""),
                     sample={"crystal": label, "cutoff": cut, "N": N, "Nstates": n, "Nstars": len(stars), "Nvstars": V.Nvstars,
                             "count_expected": total} if N == 2 and len(ck.samples) < 5 else None)
     # ---- Coq: certificates
